@@ -4,13 +4,16 @@
   (`encoding_rs_io::DecodeReaderBytes`, third-party: a parameter `R` here) fills.
 -/
 import Atto.Std.Io
+import Atto.Gen.Consts
 namespace Atto
 
 /-- the decoder behind the `TextReader`: any stateful reader, `R st n` = `inner.read(&mut buf[..n])` -/
 abbrev InnerRead (σ : Type) := σ → Nat → RR Bytes × σ
 
-def stageCap : Nat := 8        -- `staged: [u8; 8]`
-def stageMin : Nat := 8        -- `buf.len() >= self.staged.len()`
+/-- `staged: [u8; N]` — N is regenerated from the source on every run (tools/extract_consts.py) -/
+def stageCap : Nat := Consts.textStageCap
+/-- `buf.len() >= self.staged.len()` -/
+def stageMin : Nat := Consts.textStageCap
 
 /-- `TextReader` state: the decoder, the staging buffer's filled part (`staged[..staged_len]`) and
     `staged_pos`. -/
